@@ -540,13 +540,49 @@ func C09() int {
 	}
 	sort.Strings(pc)
 	r.Set("hash_prefix_first_char", pc)
+	// every program of the reduced cross-feature space AS AN IMPORTED FILE: its top-level code, globals and the
+	// functions only that code calls must work behind an import boundary exactly as they do in a main file
+	xAsLib := 0
+	{
+		xs := crossReduced(false)
+		mainProg := &Prog{Imports: []Import{{Alias: "lb", Path: "lib.tsh"}}, Stmts: []Stmt{Print{Args: []Expr{StrLit{V: "main done"}}}}}
+		drive.Par(len(xs), func(i int) {
+			if past(deadline) {
+				mu.Lock()
+				capped = true
+				mu.Unlock()
+				return
+			}
+			cp := xs[i]
+			if cp.nStmts != 1 && !r.Thorough() {
+				return // quick: the single statements in every context; thorough: also the pairs inside a function
+			}
+			libSrc := PrintProg(*cp.prog)
+			o := ProgOpts{Files: map[string]string{"lib.tsh": libSrc}, Loader: func(from, path string) (string, *Prog) { return path, cp.prog }}
+			pv := JudgeBash(mainProg, o)
+			mu.Lock()
+			done++
+			xAsLib++
+			mu.Unlock()
+			distinct.Add("lib:" + libSrc)
+			if pv.Symptom == "" || pv.Symptom == "undefined" {
+				return
+			}
+			pv = confirm(mainProg, o, pv)
+			if pv.Symptom == "" {
+				return
+			}
+			r.Fail("cross-as-imported-file: "+cp.name+" symptom="+pv.Symptom, fmt.Sprintf("cross-feature program [%s] as an imported file: %s (%s)", cp.name, pv.Symptom, pv.Detail), progReplay(pv, map[string]string{"lib.tsh": libSrc}))
+		})
+	}
+	r.Set("cross_programs_as_imported_file", xAsLib)
 	r.Set("evaluations", done)
 	r.Set("distinct_nontrivial", distinct.Len())
 	r.Set("distinct_expected_outputs", outcomes.Len())
 	r.Set("skipped_undefined", undef)
 	r.Set("illegal_access_programs_judged", illegal)
 	r.Set("exhaustive", !capped)
-	r.Set("rule", "every import graph over main + up to 2 library files (3 in thorough: every DAG x every set of main edges with all files reachable), each library drawn from feature combinations {public func, private func + public wrapper + unused func, global + top-level code, top-level call of own function, public func reading own global, func calling into own import}, equal names (Get, helper, Wrap) in every file and in main, a file imported under two aliases, std strings mixed in, and content-hash prefixes steered to start with a digit / a letter (every hex digit in thorough). Oracle: the reference interpreter's module semantics (each file's top-level code once, in dependency order); bash stdout/exit/stderr must match; static scan: no function defined twice or invoked at top level before its definition; the Batch target must accept the same files; and for every graph, main extended by one illegal access (private, underscore-led, undefined or unaliased name, alias of a file's own import, unknown alias) must be rejected for both targets. Distinct by the set of file contents.")
+	r.Set("rule", "every import graph over main + up to 2 library files (3 in thorough: every DAG x every set of main edges with all files reachable), each library drawn from feature combinations {public func, private func + public wrapper + unused func, global + top-level code, top-level call of own function, public func reading own global, func calling into own import}, equal names (Get, helper, Wrap) in every file and in main, a file imported under two aliases, std strings mixed in, and content-hash prefixes steered to start with a digit / a letter (every hex digit in thorough). Oracle: the reference interpreter's module semantics (each file's top-level code once, in dependency order); bash stdout/exit/stderr must match; static scan: no function defined twice or invoked at top level before its definition; the Batch target must accept the same files; and for every graph, main extended by one illegal access (private, underscore-led, undefined or unaliased name, alias of a file's own import, unknown alias) must be rejected for both targets. Plus every program of the reduced cross-feature space (cross.go) as an imported file. Distinct by the set of file contents.")
 	r.Assumef("the std library is not interpreted by the model; its one call has a fixed expected value")
 	return finish(r)
 }
